@@ -19,7 +19,7 @@ EXTENDS Integers, Sequences, FiniteSets, TLC
 CONSTANTS Fin,       \* non-zero integers allowed at observed entries
           Sent,      \* sentinels allowed at masked entries (subset of {NAN, PINF})
           Ops,       \* subset of the operator names below
-          Kinds      \* subset of {"number", "tensor", "matrix", "wt_same", "wt_none", "wt_other"}  ("matrix": a plain tensor with one
+          Kinds      \* subset of {"number", "tensor", "matrix", "wt_same", "wt_none", "wt_none_matrix", "wt_other"}  ("*matrix": an operand with one
                      \* more axis - the weighted vector is broadcast along it, and so must its weights be)
 NAN == 1000000
 PINF == 1000001
